@@ -26,7 +26,11 @@ def reps_for(kind):
     if kind == "str":
         return [("abc", "abc"), ("Müller µ", "Müller µ"),
                 (np.str_("abc"), "abc"), (b"abc", "abc"),
-                ("MiXed", "MiXed")]
+                ("MiXed", "MiXed"),
+                # the characters of the file syntax inside a value
+                ("pH=7.4 c(NaCl)=150mM", "pH=7.4 c(NaCl)=150mM"),
+                ("t=-6:cle=1^f=1", "t=-6:cle=1^f=1"),
+                ("a [b] c; d", "a [b] c; d")]
     if kind == "lcstr":
         return [("ABC", "abc"), ("abc", "abc"), (np.str_("AbC"), "abc"),
                 (b"ABC", "abc")]
@@ -597,7 +601,9 @@ def _handwritten_case(args):
     textreps = {
         "str": [("007", "007"), ("1e3", "1e3"), ("n", "n"), ("True", "True"),
                 ("deform", "deform"), ("plain text", "plain text"),
-                ("1,5", "1,5")],
+                ("1,5", "1,5"), ("pH=7.4", "pH=7.4"),
+                ("thresh:1:t=-6:cle=1^f=1", "thresh:1:t=-6:cle=1^f=1"),
+                ("x == y", "x == y")],
         "lcstr": [("ABC", "abc"), ("N", "n")],
         "fint": [("3", 3), ("3.0", 3), ("true", 1)],
         "float": [("2.5", 2.5), ("2", 2.0), ("1e-3", 0.001)],
